@@ -152,6 +152,62 @@ pub fn guarded<T>(f: impl FnOnce() -> T) -> Result<T, PanicInfo> {
 }
 
 // ------------------------------------------------------------------------------------------
+// Case journal: what each thread is working on, readable by the supervisor if the process dies
+// (stack overflow, abort, OOM kill) - a death that catch_unwind cannot turn into a value
+// ------------------------------------------------------------------------------------------
+
+thread_local! {
+    static JOURNAL: RefCell<Option<std::fs::File>> = RefCell::new(None);
+}
+
+/// record the case this thread is about to check (a replay file in the journal directory, rewritten in place)
+pub fn journal_case<C: Serialize>(prop: &str, sub: &str, case: &C) {
+    let dir = match std::env::var("VERIF_JOURNAL_DIR") {
+        Ok(d) if !d.is_empty() => d,
+        _ => return,
+    };
+    JOURNAL.with(|j| {
+        let mut j = j.borrow_mut();
+        if j.is_none() {
+            static NEXT: AtomicUsize = AtomicUsize::new(0);
+            let k = NEXT.fetch_add(1, Ordering::SeqCst);
+            *j = std::fs::OpenOptions::new().create(true).write(true).truncate(true).open(format!("{}/{}-{}.json", dir, std::process::id(), k)).ok();
+        }
+        if let Some(f) = j.as_mut() {
+            use std::os::unix::fs::FileExt;
+            let body = serde_json::to_vec(&json!({"property": prop, "sub": sub, "case": case})).unwrap_or_default();
+            // length-prefixed so that a torn write is recognisable: "<len>\n<json>"
+            let mut buf = format!("{}\n", body.len()).into_bytes();
+            buf.extend_from_slice(&body);
+            let _ = f.write_all_at(&buf, 0);
+            let _ = f.set_len(buf.len() as u64);
+        }
+    });
+}
+
+/// the cases found in a journal directory (one per thread that ever checked a case)
+pub fn read_journal(dir: &str) -> Vec<J> {
+    let mut out = vec![];
+    if let Ok(rd) = std::fs::read_dir(dir) {
+        let mut paths: Vec<_> = rd.flatten().map(|e| e.path()).collect();
+        paths.sort();
+        for p in paths {
+            if let Ok(b) = std::fs::read(&p) {
+                if let Some(pos) = b.iter().position(|c| *c == b'\n') {
+                    let len: usize = std::str::from_utf8(&b[..pos]).ok().and_then(|s| s.parse().ok()).unwrap_or(0);
+                    if len > 0 && b.len() >= pos + 1 + len {
+                        if let Ok(j) = serde_json::from_slice::<J>(&b[pos + 1..pos + 1 + len]) {
+                            out.push(j);
+                        }
+                    }
+                }
+            }
+        }
+    }
+    out
+}
+
+// ------------------------------------------------------------------------------------------
 // Verdicts
 // ------------------------------------------------------------------------------------------
 
@@ -553,6 +609,7 @@ impl Ctx {
                     let wcell = RefCell::new(&mut w);
                     let result = runner.run(&strategy, |case| {
                         let mut wb = wcell.borrow_mut();
+                        journal_case(self.prop, prop.name(), &case);
                         let v = prop.check(&mut **wb, &case);
                         wb.record(&v, sample_every);
                         if self.handle_verdict(&mut **wb, &v, false) {
@@ -618,6 +675,7 @@ impl Ctx {
                     let mut reported = 0;
                     while i < n {
                         let case = &cases[i];
+                        journal_case(self.prop, prop.name(), case);
                         let v = prop.check(&mut w, case);
                         if dump {
                             eprintln!("DUMP {}", json!({"sub": prop.name(), "part": label, "rendered": v.rendered, "case": serde_json::to_value(case).unwrap_or(J::Null)}));
@@ -723,6 +781,7 @@ impl Ctx {
         for f in &self.findings {
             let sub = f.witness.get("sub").and_then(|s| s.as_str()).unwrap_or("");
             let case = f.witness.get("case").cloned().unwrap_or(J::Null);
+            journal_case(self.prop, sub, &case);
             let v = match replay(&mut w, sub, &case) {
                 Some(v) => v,
                 None => {
